@@ -2,7 +2,7 @@
 C18 — model of `nitime.analysis.spectral.FilterAnalyzer` and `nitime.algorithms.filter.boxcar_filter`
 (core Lean only).
 
-* `filteredFourier`  : `filtered_fourier` — bins selected on the frequency grid `get_freqs` returns
+* `filteredFourier`  : `filtered_fourier` (generic `fourierProj` over `Model/Num.lean`'s scalar classes) — bins selected on the frequency grid `get_freqs` returns
   (`np.fft.rfftfreq(n)·Fs`, the true bin frequency `j·Fs/n`, since commit ed873b1; the former
   `linspace(0, Fs/2, n//2+1)` grid was wrong for odd `n`), ± index nulling, DC kept, default
   `ub` = Nyquist, real part of the inverse transform.
@@ -14,13 +14,13 @@ C18 — model of `nitime.analysis.spectral.FilterAnalyzer` and `nitime.algorithm
 * `methodAxis` : which of rate / t0 / unit each method forwards, read off the GENERATED
   output-series descriptors (`Generated/SeriesCalls.lean`, harness/translate_c15.py).
 -/
-import Nitime.Model.FiltBase
+import Nitime.Model.Num
 import Nitime.Model.Proto
 import Nitime.Model.C15Types
 import Nitime.Generated.SeriesCalls
 
 namespace Nitime.C18
-open Nitime Nitime.Filt
+open Nitime
 
 /-! ### Fourier-domain filter -/
 
@@ -35,12 +35,39 @@ def keepBin {K : Type} [LT K] [DecidableLT K] (grid : Nat → K) (lb ub : K) (n 
   let j := if k ≤ n - k then k else n - k
   !(decide (grid j < lb)) && !(decide (ub < grid j))
 
+/-! The transform itself is written ONCE over the scalar classes of `Model/Num.lean` (`R` reals, `K`
+complex numbers): executed with `Float` / `Num.C`, reasoned about with `ℝ` / `ℂ` (Props/C18.lean,
+where `fourierProj` with twiddles `ζ^m` is shown to be the textbook masked inverse DFT). -/
+section generic
+variable {R K : Type} [Num.RScalar R] [Num.CScalar R K]
+
+/-- `power` after the nulling: kept bins carry `fft(x)[k]`, the others zero -/
+def maskedSpectrum (tw : Nat → K) (N : Nat) (keep : Nat → Bool) (x : Nat → K) (k : Nat) : K :=
+  if keep k then Num.dftAt tw N x k else Num.CScalar.zero
+
+/-- `ifft(power)[t]` -/
+def fourierProj (tw : Nat → K) (N : Nat) (keep : Nat → Bool) (x : Nat → K) (t : Nat) : K :=
+  Num.idftAt tw N (maskedSpectrum tw N keep x) t
+
+/-- all `N` output samples, with the masked spectrum tabulated once (`memoGet_memoArr`: the table
+is provably the function, see `Props.fourierProjList_eq`) -/
+def fourierProjList (tw : Nat → K) (N : Nat) (keep : Nat → Bool) (x : Nat → K) : List K :=
+  let f := maskedSpectrum tw N keep x
+  let Y := Num.memoArr N f
+  (List.range N).map fun t => Num.idftAt tw N (Num.memoGet Y f) t
+
+/-- `np.real(ifft(power))` for real input -/
+def filteredFourierG (tw : Nat → K) (N : Nat) (keep : Nat → Bool) (x : Nat → R) : List R :=
+  (fourierProjList tw N keep fun j => Num.CScalar.ofReal (x j)).map Num.CScalar.re
+
+end generic
+
 def filteredFourierWith (grid : Nat → Float) (ubDefault lb : Float) (ub : Option Float) (n : Nat) (x : List Float) :
     List Float :=
   let ub := ub.getD ubDefault
-  let X := dft (x.toArray.map fun v => ⟨v, 0⟩)
-  let Y := (Array.range n).map fun k => if keepBin grid lb ub n k then X.getD k Cx.zero else Cx.zero
-  (idft Y).toList.map (·.re)
+  let xa := x.toArray
+  let tw := Num.twiddleFn n (Num.twiddleTable n)
+  filteredFourierG (K := Num.C) tw n (keepBin grid lb ub n) (Num.ffn xa)
 
 /-- `ub=None` means the Nyquist frequency `Fs/2` -/
 def filteredFourier (fs lb : Float) (ub : Option Float) (x : List Float) : List Float :=
@@ -77,6 +104,18 @@ def firPlan (fs lb : K) (ub : Option K) (order n : Nat) : Except PlanErr (Nat ×
   if lf < 0 ∨ 1 < uf then .error .valueError
   else if n * 3 < order + 1 then .error .valueError
   else .ok (order + 1, if uf < 1 then some uf else none, if 0 < lf then some lf else none)
+
+/-- which design `iir` requests from `scipy.signal.iirdesign`: pass-band edges `wp` and stop-band edges
+`ws` as fractions of the Nyquist frequency, by the three branches of the source (band-pass, low-pass,
+high-pass); `none` when no branch applies (the source then fails on an unbound name) -/
+def iirPlan [Add K] [Sub K] [OfScientific K] (fs lb : K) (ub : Option K) : Option (List K × List K) :=
+  let (lf, uf) := firBandFractions fs lb ub
+  let kmax (a b : K) : K := if a < b then b else a
+  let kmin (a b : K) : K := if b < a then b else a
+  if 0 < lf ∧ uf < 1 then some ([lf, uf], [kmax (lf - 0.1) 0.001, kmin (uf + 0.1) 0.999])
+  else if ¬ (lf < 0) ∧ ¬ (0 < lf) then some ([uf], [kmin (uf + 0.1) 0.9])
+  else if ¬ (uf < 1) ∧ ¬ (1 < uf) then some ([lf], [kmax (lf - 0.1) 0.1])
+  else none
 end plans
 
 /-! ### boxcar -/
@@ -175,6 +214,13 @@ def handle (args : List String) : String :=
         "ok " ++ toString taps ++ " " ++ (match lp with | some v => showFloat v | none => "-") ++ " "
           ++ (match hp with | some v => showFloat v | none => "-")
     | _, _, _, _, _ => "bad-args"
+  | ["iirplan", fs, lb, ub] =>
+    match parseFloat? fs, parseFloat? lb, optF ub with
+    | some fs, some lb, some ub =>
+      match iirPlan fs lb ub with
+      | none => "err UnboundLocalError"
+      | some (wp, ws) => "ok " ++ showFloatList wp ++ " " ++ showFloatList ws
+    | _, _, _ => "bad-args"
   | ["boxcar", fs, lb, ub, x] =>
     match parseFloat? fs, parseFloat? lb, optF ub, parseFloatList? x with
     | some fs, some lb, some ub, some x =>
